@@ -755,7 +755,10 @@ class RollWorld:
                 else:
                     lit, _ = rd.tells[int(to) % len(rd.tells)]
                     rd.obj.seek(tuple(lit))
+                    far0 = self.probes.get('position_far_inside_record', 0)
                     newpos = self.lit_to_model(lit)
+                    if self.probes.get('position_far_inside_record', 0) > far0:
+                        self.probe('seek_far_inside_record')
                     to = 'tell'
         except Exception as exc:
             self.observe_exc('seek', exc)
@@ -1166,6 +1169,8 @@ def gen_history_c13(ch, knobs):
             r = names[ch.weighted('ops', [2] + [3] * len(rdonly))]
             tk = ch.weighted('ops', [3, 4, 1, 1] if not knobs.get('huge') else [1, 4, 5, 0])
             to = 'start' if tk == 0 else ch.rng_int('ops', 0, 7) if tk == 1 else 'end' if tk == 2 else 'block0'
+            if tk == 1 and knobs.get('huge') and not ch.chance('ops', 1, 4):
+                to = -1                 # the most recent tell()
             op = {'op': 'seek', 'r': r, 'to': to}
         elif kind == 'refresh':
             op = {'op': 'refresh', 'r': ch.pick('ops', rdonly)}
